@@ -3974,6 +3974,7 @@ async fn run_rtp_direct_loop(
         #[cfg(rustrtc_verif)]
         if let Some(inner) = inner_weak.upgrade() {
             inner.vemit("ice_seen", &format!("{:?}", ice_state));
+    inner.vprobe(&format!("ice_seen:{:?}", ice_state));
         }
 
         match ice_state {
@@ -4058,6 +4059,7 @@ async fn run_ice_dtls_loop(
         #[cfg(rustrtc_verif)]
         if let Some(inner) = inner_weak.upgrade() {
             inner.vemit("ice_seen", &format!("{:?}", ice_state));
+    inner.vprobe(&format!("ice_seen:{:?}", ice_state));
         }
         match ice_state {
             crate::transports::ice::IceTransportState::Connected
@@ -5816,6 +5818,24 @@ impl PeerConnectionInner {
 
     pub(crate) fn vprobe(&self, point: &str) {
         crate::verif::probe("pc", self.vlabel(), point);
+    }
+}
+
+/// Harness-only access to the lower transports of a connection, used to play a
+/// *peer* that ends DTLS / SCTP explicitly (close_notify, ABORT, SHUTDOWN) while
+/// its ICE transport stays up.
+#[cfg(rustrtc_verif)]
+impl PeerConnection {
+    pub fn verif_dtls_transport(&self) -> Option<Arc<DtlsTransport>> {
+        self.inner.dtls_transport.lock().clone()
+    }
+
+    pub fn verif_sctp_transport(&self) -> Option<Arc<SctpTransport>> {
+        self.inner.sctp_transport.lock().clone()
+    }
+
+    pub fn verif_strong_count(&self) -> usize {
+        Arc::strong_count(&self.inner)
     }
 }
 
